@@ -295,6 +295,9 @@ class C10(common.Prop):
         if out.get("inplace") is not None:
             return {"what": "the in-place methods pow_(2), tensor.add_(1), fix_nan() on input %s do not leave v*v + 1 with NaN -> 0 (infinities "
                             "kept) under an unchanged mask" % (out["inplace"],), "step": None, "op": "inplace", "kind": "inplace"}
+        if out.get("graphshape"):
+            return {"what": "in graph mode (tf.function, leading extent unknown at trace time) masked (1, 3) <op> plain (5, 3) gives %s"
+                            % (out["graphshape"],), "step": None, "op": "graph-broadcast", "kind": "shape"}
         if out.get("viewinplace") is not None:
             return {"what": "pow_(2) on the view x[:1] of input %s does not square the first row of x itself (an in-place method on a "
                             "view writes through, as for plain tensors)" % (out["viewinplace"],), "step": None, "op": "inplace-on-view", "kind": "inplace"}
